@@ -36,7 +36,10 @@ RULE = ('cases are of three kinds. func: (frequency grid, amplitude vector, targ
         'targets: log-random inside the grid, exactly on the grid, below f1/3, above 3*fmax, None (= the grid), float32 / '
         'integer, the frequency array object itself, target sets of 1, 2, 31..33, 63..65, 127..129, 256 entries, ascending / '
         'descending / shuffled, with repeated entries, with the first and last Fourier frequency exactly; spectra of 1-3 bins; '
-        'one bin 1e3..1e12 times the rest; awkward time steps (gen.awkward_dt); tail-heavy and trend+Nyquist records; each '
+        'one bin 1e3..1e12 times the rest; amplitudes at numerically special scales (gen.special_scale / gen.record(extreme=True): '
+        '1e-165..1e-300, 1e155..1e300, 1e-150 next to 1e150, ripple on a baseline, counts above 2**24; float64 and list '
+        'containers only); targets 3..8 decades below / above the grid and 12-decade log grids with b = 80..100 '
+        '(b*|log10(f/fc)| up to ~1300); awkward time steps (gen.awkward_dt); tail-heavy and trend+Nyquist records; each '
         'array also as strided view, reversed view or read-only array. '
         'signal: (record in any container/dtype, dt, class, way the targets are set, b, ratios incl. 0 / 1e-12 / 0.999999) '
         'through the object API, the custom-matrix form (matrix float64/float32/Fortran-ordered/read-only/nested list) and '
@@ -361,10 +364,11 @@ def check_smooth(ctx, at, freqs, spec, targets, band, result, clause='smooth==we
         # the same comparison relative to the LOCAL scale (the reference value of each target itself, plus the oracle's
         # first-order bound of the window's own rounding error): a spike 1e12 times the rest must not hide the rest
         bound = np.array(O.smooth_error_bound(_columns(fnz, tg, band), _sens_columns(fnz, tg, band), anz.tolist()), dtype=float)
-        allowed = RTOL * np.abs(ref) + 16 * bound + 1e-300
+        allowed = RTOL * np.abs(ref) + 16 * bound            # no absolute floor: amplitudes go down to 1e-300
         with np.errstate(invalid='ignore'):
             err = np.abs(np.asarray(got, dtype=complex) - ref) if got.dtype.kind == 'c' else np.abs(got - ref)
         okl = got.shape == ref.shape and bool(np.all(err <= allowed))
+        allowed = np.where(allowed > 0, allowed, 5e-324)     # for the message only
         ctx.check(okl, 'smooth==weighted-mean(local scale)',
                   lambda: _wit(at, raw, got=got, expected=ref, allowed=allowed, band=band),
                   '%s(n_f=%d, n_targets=%d, band=%r): worst |diff|/allowed = %.3g at target %d (got %r, expected %r, allowed %.3g)'
@@ -379,6 +383,17 @@ def check_smooth(ctx, at, freqs, spec, targets, band, result, clause='smooth==we
     if np.any(tg < fnz[0] / 3) or np.any(tg > 3 * fnz[-1]):
         ctx.observe('calls-with-targets-outside-[f1/3,3fmax]')
     finite = got.shape == (len(tg),) and bool(np.all(np.isfinite(got)))
+    with np.errstate(all='ignore'):
+        zmax = float(band) * max(float(np.max(np.abs(np.log10(float(np.min(fnz)) / tg)))), float(np.max(np.abs(np.log10(float(np.max(fnz)) / tg)))))
+    if zmax > 308:
+        # (f/fc)**b leaves the float64 range for some pair although b*log10(f/fc) is harmless
+        ctx.check(ok_eq and finite, 'smooth==weighted-mean & finite (b*|log10(f/fc)| > 308)',
+                  lambda: _wit(at, raw, got=gsub, expected=ref, band=band, zmax=zmax),
+                  '%s with band=%r and frequency ratios up to 1e%.0f: %s; finite: %r' % (at, band, zmax / float(band), desc, finite))
+    if scale > 1e150 or 0 < scale < 1e-150 or (scale > 0 and float(np.min(_mags(anz)[_mags(anz) > 0])) < 1e-250 * scale):
+        ctx.check(ok_eq and finite, 'smooth==weighted-mean & finite (extreme amplitude scale)',
+                  lambda: _wit(at, raw, got=gsub, expected=ref, band=band, scale=scale),
+                  '%s with amplitudes of scale %.3g: %s; finite: %r' % (at, scale, desc, finite))
     ctx.check(finite, 'smooth.finite', lambda: _wit(at, raw, got=got[:4096], band=band),
               '%s returned non-finite values or a wrong shape %s (expected (%d,))' % (at, got.shape, len(tg)))
     if finite:
@@ -499,7 +514,7 @@ def _post_custom(args, kwargs, result, pre):
     ref = np.array(ref, dtype=float)
     scale = np.array(scale, dtype=float)
     rtol = 1e-5 if (mm.dtype == np.float32 or spec.dtype == np.complex64) else RTOL   # numpy evaluates the dot in single
-    ctx.check(tol.close(got, ref, scale=scale, rtol=rtol, atol=1e-300), 'custom-matrix==sum|A_i|M_ij(i>=1)',
+    ctx.check(tol.close(got, ref, scale=scale, rtol=rtol), 'custom-matrix==sum|A_i|M_ij(i>=1)',
               lambda: _wit(at, raw, got=got, expected=ref),
               '%s (n_f=%d, columns=%d): %s' % (at, len(mags), mm.shape[1], tol.describe(got, ref, scale=scale, rtol=rtol)))
 
@@ -811,7 +826,16 @@ def draw_dt(rng):
 
 
 def draw_record(rng, n):
-    x, cls = gen.record(rng, n)
+    try:
+        x, cls = gen.record(rng, n, extreme=True)
+    except TypeError:
+        x, cls = gen.record(rng, n)
+    if 'extreme' in cls:
+        return x, cls
+    if hasattr(gen, 'special_scale') and n <= 600 and rng.random() < 0.05:
+        y, sfx = gen.special_scale(rng, x)
+        if sfx:
+            return y, cls + sfx + '/extreme-scale'
     u = rng.random()
     if u < 0.15:
         x = x * float(10 ** rng.uniform(-12, 12))
@@ -953,7 +977,11 @@ def gen_func_case(rng, long_n=None):
         points = int(rng.choice([2, 2, 3, 3, 4, 4, 5, 8, 16, 33, 64, 100, 128, 256])) if rng.random() < 0.6 else int(rng.integers(2, 257))
         u = rng.random()
         if src == 'loggrid':
-            freqs = np.concatenate([[0.0], np.sort(10 ** rng.uniform(-2, 2, size=points - 1))])
+            if rng.random() < 0.35:
+                src = 'loggrid-wide(12 decades)'
+                freqs = np.concatenate([[0.0], np.sort(10 ** rng.uniform(-6, 6, size=points - 1))])
+            else:
+                freqs = np.concatenate([[0.0], np.sort(10 ** rng.uniform(-2, 2, size=points - 1))])
         elif u < 0.12:
             grid_dtype = ['int64', 'int32', 'int16', 'uint8', 'uint16'][int(rng.integers(5))]
             freqs = np.arange(points).astype(grid_dtype)
@@ -1009,11 +1037,30 @@ def gen_func_case(rng, long_n=None):
         else:
             spec = np.abs(rng.normal(size=points)) * amp
     with_zero = bool(rng.random() < 0.5)
+    extreme = False
+    far = False
     if reject is None:
         if not with_zero:
             freqs, spec = freqs[1:], spec[1:]
         fnz = np.asarray(freqs[1:] if with_zero else freqs, dtype=float)
         targets, tkind = draw_targets(rng, fnz)
+        if spec.dtype in (np.dtype(np.float64), np.dtype(np.complex128)) and hasattr(gen, 'special_scale') and rng.random() < 0.08:
+            # numerically special but valid amplitude scales (smoothing is linear in |A|): uniformly tiny / huge, 1e-150 next to
+            # 1e150, a ripple on a baseline, counts above 2**24
+            mag = np.abs(spec)
+            new, sfx = gen.special_scale(rng, mag if spec.dtype.kind == 'c' else spec)
+            if sfx:
+                spec = (spec / np.where(mag > 0, mag, 1.0)) * new if spec.dtype.kind == 'c' else new
+                src += sfx
+                extreme = True
+        if targets is not None and rng.random() < 0.08:
+            # widely separated (Fourier frequency, target) pairs with a large bandwidth: b*|log10(f/fc)| far above 308
+            extra = np.concatenate([fnz[0] * 10 ** -rng.uniform(3, 8, size=int(rng.integers(1, 3))),
+                                    fnz[-1] * 10 ** rng.uniform(3, 8, size=int(rng.integers(1, 3)))])
+            targets = np.concatenate([targets, extra])
+            rng.shuffle(targets)
+            tkind += '+far'
+            far = True
     else:
         targets, tkind = np.array([1.0, 2.0]), 'any'
     views = {'freqs': VIEWS[int(rng.integers(len(VIEWS)))], 'spec': VIEWS[int(rng.integers(len(VIEWS)))],
@@ -1042,14 +1089,24 @@ def gen_func_case(rng, long_n=None):
     band, bform = draw_band(rng)
     if rng.random() < 0.02:
         band = float(rng.choice([0.0, 1.0, 200.0]))          # outside the quantifier: counted by the monitor, not judged
+    if far or (src.startswith('loggrid-wide') and rng.random() < 0.7):
+        band = [100, 100.0, 90.0, float(rng.uniform(80, 100))][int(rng.integers(4))]
     case = {'kind': 'func', 'freqs': freqs, 'spec': spec, 'targets': targets, 'views': views, 'band': band, 'band_form': bform,
-            'alpha': draw_alpha(rng), 'const': float(rng.choice([1.0, 0.3, 2.5e-7, 123456.789, -4.0, 1e-12, 1e12])),
+            'alpha': float(rng.choice([2.0, 0.5, -2.0])) if extreme else draw_alpha(rng),
+            'const': float(rng.choice([1e-200, 1e200, -3e250, 7e-290])) if extreme else float(rng.choice([1.0, 0.3, 2.5e-7, 123456.789, -4.0, 1e-12, 1e12])),
             'none_style': 'omit' if rng.random() < 0.5 else 'none', 'style': ['pos', 'kw', 'mixed'][int(rng.integers(3))],
             'probe': probe, 'reject': reject}
     return case, 'func:%s:%s:%s:%s' % (src, grid_dtype, 'zero-bin' if with_zero else 'no-zero-bin', tkind)
 
 
 VALUE_FORMS = [None, None, None, None, 'list', 'tuple', 'intlist', 'f32', 'i64', 'i16', 'u8', 'readonly', 'stride2']
+
+
+def draw_value_form(rng, rcls):
+    """extreme-scale records stay in float64 / list containers (float32 overflows, integer forms rescale them away)."""
+    if 'extreme' in rcls:
+        return [None, None, 'list', 'tuple', 'readonly', 'stride2'][int(rng.integers(6))]
+    return VALUE_FORMS[int(rng.integers(len(VALUE_FORMS)))]
 
 
 def values_in_form(x, form):
@@ -1131,7 +1188,7 @@ def gen_signal_case(rng, long_n=None, default_targets=False):
         if long_n is not None:
             targets = targets[:3] if len(targets) >= 3 else targets
     case = {'kind': 'signal', 'cls': 'AccSignal' if rng.random() < 0.5 else 'Signal', 'values': x, 'dt': dt, 'how': how,
-            'values_form': VALUE_FORMS[int(rng.integers(len(VALUE_FORMS)))] if long_n is None else None,
+            'values_form': draw_value_form(rng, rcls) if long_n is None else None,
             'targets': targets, 'targets_form': draw_target_form(rng) if how != 'gen_arg' else [None, 'readonly', 'stride2'][int(rng.integers(3))],
             'range': rng_lim, 'range_form': ['tuple', 'list', 'array'][int(rng.integers(3))], 'n_points': int(rng.choice([1, 1, 2, 2, 7, 30, 31, 32, 33, 50, 64, 65])),
             'band': draw_band(rng)[0], 'band_form': ['py', 'np64', '0d'][int(rng.integers(3))],
@@ -1185,8 +1242,8 @@ def gen_history_case(rng):
             op['value'] = int(rng.choice([2, 5, 31]))
         elif name == 'reset':
             m = [n, max(3, n // 2), n + int(rng.integers(1, 40)), int(POW2_NEIGHBOURS[int(rng.integers(len(POW2_NEIGHBOURS)))])][int(rng.integers(4))]
-            op['values'] = draw_record(rng, m)[0]
-            op['form'] = VALUE_FORMS[int(rng.integers(len(VALUE_FORMS)))]
+            op['values'], _rc = draw_record(rng, m)
+            op['form'] = draw_value_form(rng, _rc)
         elif name == 'add_constant':
             op['c'] = float(rng.normal() * 10 ** rng.uniform(-3, 3))
         elif name == 'add_series':
@@ -1212,7 +1269,7 @@ def gen_history_case(rng):
             op['switch'] = bool(rng.random() < 0.5)
         ops.append(op)
     case = {'kind': 'history', 'cls': 'AccSignal' if rng.random() < 0.5 else 'Signal', 'values': x, 'dt': dt,
-            'values_form': VALUE_FORMS[int(rng.integers(len(VALUE_FORMS)))], 'ops': ops}
+            'values_form': draw_value_form(rng, rcls), 'ops': ops}
     return case, 'history:%s' % rcls
 
 
@@ -1979,6 +2036,7 @@ MIN_EVALS['quick'] = {
     'relation.constant-reproduced': 750, 'relation.scaling': 600, 'relation.scaling-pow2-exact': 110,
     'smooth==weighted-mean(local scale)': 4500, 'ownership.result-owns-its-data': 7000,
     'bandwidth.open-end: ordered, brackets peak, ==first/last above limit': 700,
+    'smooth==weighted-mean & finite (b*|log10(f/fc)| > 308)': 450, 'smooth==weighted-mean & finite (extreme amplitude scale)': 180,
     'purity.arguments-unchanged': 8000, 'purity.signal-state-unchanged': 3500, 'state.held-result-unchanged': 1900}
 MIN_EVALS['thorough'] = {k: 18 * v for k, v in MIN_EVALS['quick'].items()}
 LARGE_MIN = {'smooth==weighted-mean(large: target subset)': 15, 'matrix==window/sum(large: target subset)': 5,
